@@ -1,6 +1,6 @@
 #!/bin/bash
 # Runs the quick check of each seeded change's property against a worktree with the change applied.
-# usage: tools/seedsweep.sh [name-glob]
+# usage: [SWEEP_SEEDS="0 5 9"] tools/seedsweep.sh [name-glob]
 pat=${1:-*}
 for d in /verif/seeded/$pat/; do
   name=$(basename $d); prop=$(python3 -c "import json;print(json.load(open('$d/meta.json'))['property'])")
@@ -8,8 +8,10 @@ for d in /verif/seeded/$pat/; do
   git -C /repo worktree remove --force $wt >/dev/null 2>&1
   git -C /repo worktree add --detach $wt HEAD >/dev/null 2>&1 || { echo "$name: worktree failed"; continue; }
   if ! git -C $wt apply $d/patch.diff 2>/dev/null; then echo "$name ($prop): PATCH NO LONGER APPLIES"; git -C /repo worktree remove --force $wt; continue; fi
-  out=$(VERIF_REPO=$wt /verif/check $prop quick 2>&1 | grep -v "^KNOWN"); rc=$?
-  if echo "$out" | grep -q "^VIOLATION"; then echo "$name ($prop): DETECTED  $(echo "$out" | grep -m1 detail | cut -c1-160)"; else echo "$name ($prop): MISSED  $(echo "$out" | tail -1 | cut -c1-160)"; fi
+  for seed in ${SWEEP_SEEDS:-0}; do
+    out=$(VERIF_SEED=$seed VERIF_REPO=$wt /verif/check $prop quick 2>&1 | grep -v "^KNOWN"); rc=$?
+    if echo "$out" | grep -q "^VIOLATION"; then echo "$name ($prop) seed=$seed: DETECTED  $(echo "$out" | grep -m1 detail | cut -c1-160)"; else echo "$name ($prop) seed=$seed: MISSED  $(echo "$out" | tail -1 | cut -c1-160)"; fi
+  done
   git -C /repo worktree remove --force $wt
 done
 git -C /repo worktree prune
